@@ -93,6 +93,22 @@ func onState(L *lua.LState, r *lrun.ImplRun) {
 			return 0
 		}
 	}
+	// badidx: indices that name no local (0, negative, far too large) give no
+	// name and change nothing, in the caller or anywhere else
+	L.SetGlobal("badidx", L.NewFunction(func(L *lua.LState) int {
+		parts := []string{strconv.Quote("badidx")}
+		if dbg, ok := L.GetStack(1); ok {
+			for _, no := range []int{0, -1, -2, -3, -50, 100000} {
+				name, v := L.GetLocal(dbg, no)
+				set := L.SetLocal(dbg, no, lua.LNumber(777000+no))
+				if name != "" || v != lua.LNil || set != "" {
+					parts = append(parts, fmt.Sprintf("index %d: getlocal gave %q,%s setlocal gave %q", no, name, canonv(v), set))
+				}
+			}
+		}
+		ev(parts...)
+		return 0
+	}))
 	L.SetGlobal("probe", L.NewFunction(probeAt(1)))
 	// probe2: the locals of the function that called the caller (a metamethod
 	// handler or an iterator asks about the frame stopped at the instruction that invoked it)
@@ -182,6 +198,10 @@ func onModel(in *lref.Interp) {
 			return nil
 		}
 	}
+	in.Register("badidx", func(in *lref.Interp, a []lref.Value) []lref.Value {
+		in.Emit(strconv.Quote("badidx"))
+		return nil
+	})
 	in.Register("probe", probeAt(1))
 	in.Register("probe2", probeAt(2))
 	in.Register("setl", func(in *lref.Interp, a []lref.Value) []lref.Value {
